@@ -13,6 +13,9 @@ def run(report, tier):
                 (P.P5(), 2, 0, None), (P.P6(), 2, 0, None), (P.P7(), 2, 0, None), (P.P8(), 2, 0, None)]
         plan += [(c, 2, 0, 150000) for c in P.grid()]
     run_pool_check(report, "C01", plan)
+    # the virtual concurrency layer the exploration rests on, compared with the real primitives
+    from conformance.primitives import run_conformance
+    run_conformance(report, depth=4 if tier == "quick" else 5)
 
 
 def replay(rec):
